@@ -311,16 +311,14 @@ static void one(unsigned pat) {
 /* End-to-end statement of the property for an edit SEQUENCE through the public API: an element that has no children (again)
  * after appendElement + removeElement is the tree "tag, flags, empty payload"; it fits the length field, so it must be
  * serialized, as header only.  Everything symbolic but the shape. */
-static void seq(void) {
+static void seq(_Bool tlv16) {
 	KSI_TlvElement *x; unsigned char o[8]; size_t len = 0, kb = nondet_size(); int r1, r2, r3; unsigned xt;
 	static unsigned char enc[4];
-	/* P = the parsed encoding of an element with an empty payload (either header form) */
-	enc[0] = nondet_uchar(); enc[1] = nondet_uchar(); enc[2] = 0; enc[3] = 0;
-	if (!(enc[0] & 0x80)) enc[1] = 0;
-	P = NULL;
-	r1 = KSI_TlvElement_parse(enc, (enc[0] & 0x80) ? 4 : 2, &P);
-	__CPROVER_assert(r1 == KSI_OK && P != NULL, "tree api sequence: the encoding of an element with an empty payload parses");
-	if (P == NULL) return;
+	/* P = a new element that declares an empty payload (its buffer pointer is a borrowed, non-NULL one as after parsing) */
+	if (KSI_TlvElement_new(&P) != KSI_OK || P == NULL) return;
+	P->ftlv.tag = nondet_uint(); __CPROVER_assume(P->ftlv.tag <= SPEC_TLV_MAX_TAG);
+	P->ftlv.is_nc = nondet_bool(); P->ftlv.is_fwd = nondet_bool();
+	P->ptr = enc; P->ptr_own = 0; P->ftlv.hdr_len = tlv16 ? 4 : 2;
 	xt = nondet_uint(); __CPROVER_assume(xt <= SPEC_TLV_MAX_TAG);
 	x = mk_leaf(0, xt);
 	if (x == NULL || x->ptr == NULL) return;
@@ -382,7 +380,7 @@ static void free_job(void) {
 
 void harness(void) {
 #if defined(ET_OP_SEQ)
-	seq();
+	seq(0); seq(1);
 #elif defined(ET_OP_FREE)
 	free_job();
 #elif defined(ET_SYMTAGS)
